@@ -5,6 +5,7 @@ import OrbitModel.Proofs.GenEqConsts
 import OrbitModel.Proofs.ReplExamples
 import OrbitModel.Proofs.AuthBatch
 import OrbitModel.Proofs.DecodeSafe
+import OrbitModel.Proofs.GenEqFetched
 /-!
 # C10 — rejected entries never block replication of valid entries
 -/
@@ -79,5 +80,13 @@ theorem batch_size_tied_to_go_text : Gen.batchSize = 1 := gen_batchSize
 /-- the replicator of the Go text of this run looks at EVERY hash a fetched entry names (no early exit
 from the loop that queues them), as the model's `fetched` does -/
 theorem parent_walk_tied_to_go_text : Gen.parentWalkExits = 0 := gen_parentWalk_complete
+
+/-- the steps of the replicator's `processHash` of the Go text of this run, in the order of
+`Order.processHash`: a batch is buffered for `Join` only after the requested entry has come back, every
+entry is of this log and sits at the address of its content; a check that could not be made ends the
+request with an ERROR (it stays to be retried: `later_request_completes`), it is not taken for the verdict
+"wrong address" (finding F64, fix: commit - the entry was marked as fetched and never asked for again) -/
+theorem fetched_batch_steps_tied_to_go_text : Gen.processHashOrder = Order.processHash :=
+  gen_processHash_order
 
 end Orbit.C10
